@@ -80,7 +80,9 @@ class PopenSpawn(SpawnBase):
             timeout = 1e6
 
         t0 = time.time()
-        while (time.time() - t0) < timeout and size and len(buf) < size:
+        # Always look at the queue at least once, so that timeout=0 still
+        # returns what is immediately available.
+        while size and len(buf) < size:
             try:
                 incoming = self._read_queue.get_nowait()
             except Empty:
@@ -91,6 +93,8 @@ class PopenSpawn(SpawnBase):
                     break
 
                 buf += self._decoder.decode(incoming, final=False)
+            if (time.time() - t0) >= timeout:
+                break
 
         r, self._buf = buf[:size], buf[size:]
 
